@@ -203,7 +203,12 @@ def matrix_system(
                 if _cond(Ap[:, cols]) > sub_cond:
                     ok = False
                     break
-        if ok and np.all(np.abs(Ap).sum(axis=1) > 0):
+        if ok:
+            # every receptor must see the system: per-receptor extents within a factor 100 of each other
+            lbv0, ubv0 = bounds_arrays(lb, ub, nn)
+            ext0 = np.abs(Ap) @ np.where(np.isfinite(ubv0), ubv0 - lbv0, NOMINAL_RANGE)
+            ok = bool(np.min(ext0) > 0 and np.max(ext0) / np.min(ext0) <= 100.0)
+        if ok:
             A = cand
             break
         redraws += 1
